@@ -1,6 +1,6 @@
 (* lemmas for C09 *)
 From Coq Require Import ZArith List Bool Lia.
-From Otto Require Import Common.Double C09.Utf C09.Spec C09.Model.
+From Otto Require Import Common.Corr Common.Double C09.Utf C09.Spec C09.Model.
 Import ListNotations.
 Open Scope Z_scope.
 
@@ -536,35 +536,21 @@ Proof.
   destruct (Z.ltb_spec b a); rewrite rsub_enc16 by exact B; do 3 f_equal; lia.
 Qed.
 
-(* substr: equal as long as start + length does not wrap around int64 *)
-Definition substr_len_ok (args : list arg) : Prop :=
-  match opt_ext args 1 with
-  | Some (Some (Fin z)) => z < 2 ^ 62
-  | Some (Some PInf) => False
-  | _ => True
-  end.
-
-Lemma wrap64_id : forall x, - 2 ^ 63 <= x < 2 ^ 63 -> wrap64 x = x.
-Proof.
-  intros x H. unfold wrap64. change (2 ^ 64) with (2 * 2 ^ 63). big.
-  rewrite Z.mod_small by lia. lia.
-Qed.
-
-Theorem substr_refines_bmp : forall u args, bmp_clean u -> zlen u < 2 ^ 62 -> substr_len_ok args ->
+(* substr: for every start and length argument (27b5748 removed the wrapping start+length) *)
+Theorem substr_refines_bmp : forall u args, bmp_clean u -> zlen u < 2 ^ 62 ->
   m_substr (dec16 u) args =
   match to_integer (arg_at args 0), opt_ext args 1 with
   | Some st, Some ln => Some (VStr (substr u st ln))
   | _, _ => None
   end.
 Proof.
-  intros u args B L G. rewrite (dec16_bmp u B). unfold m_substr.
+  intros u args B L. rewrite (dec16_bmp u B). unfold m_substr.
   pose proof (zlen_nonneg _ u) as Hn.
   rewrite int64_of_sat.
   destruct (to_integer (arg_at args 0)) as [st|]; cbn [option_map]; [|reflexivity].
   rewrite range_index_rel by lia.
   pose proof (rel_index_range st (zlen u) Hn) as R.
   set (from := rel_index st (zlen u)) in *.
-  (* the length argument *)
   assert (E : (if (length args =? 1)%nat then Some (zlen u)
                else match arg_at args 1 with AUndef => Some (zlen u) | a => int64_of a end) =
               option_map (fun o => match o with None => zlen u | Some l => sat64 l end) (opt_ext args 1)).
@@ -572,26 +558,21 @@ Proof.
     - now rewrite (arg_at_1_single _ L1).
     - destruct (arg_at args 1); try reflexivity; rewrite int64_of_sat;
         (destruct (to_integer _); reflexivity). }
-  rewrite E. clear E. unfold substr_len_ok in G.
+  rewrite E. clear E.
   destruct (opt_ext args 1) as [ln|]; cbn [option_map]; [|reflexivity].
   unfold substr. fold from.
-  destruct ln as [[|z|]|]; cbn [ext_max ext_min sat64]; try contradiction.
+  destruct ln as [[|z|]|]; cbn [ext_max ext_min sat64].
   - (* -Infinity *) big. split_ifs; reflexivity.
   - (* finite *)
-    big. destruct (Z.leb_spec 9223372036854775808 z); [lia|].
-    destruct (Z.leb_spec z (Z.opp 9223372036854775808)).
-    + split_ifs; reflexivity.
-    + destruct (Z.leb_spec (zlen u) from).
+    big. destruct (Z.leb_spec 9223372036854775808 z).
+    + split_ifs; try reflexivity; rewrite rsub_enc16 by exact B; do 3 f_equal; lia.
+    + destruct (Z.leb_spec z (Z.opp 9223372036854775808)).
       * split_ifs; reflexivity.
-      * destruct (Z.leb_spec z 0); [split_ifs; reflexivity|].
-        rewrite wrap64_id by (big; lia).
-        split_ifs; rewrite rsub_enc16 by exact B; do 3 f_equal; lia.
+      * split_ifs; try reflexivity; rewrite rsub_enc16 by exact B; do 3 f_equal; lia.
+  - (* +Infinity *)
+    big. split_ifs; try reflexivity; rewrite rsub_enc16 by exact B; do 3 f_equal; lia.
   - (* absent / undefined: up to the end *)
-    destruct (Z.leb_spec (zlen u) from).
-    + split_ifs; reflexivity.
-    + destruct (Z.leb_spec (zlen u) 0); [lia|].
-      rewrite wrap64_id by (big; lia).
-      split_ifs; rewrite rsub_enc16 by exact B; do 3 f_equal; lia.
+    split_ifs; try reflexivity; rewrite rsub_enc16 by exact B; do 3 f_equal; lia.
 Qed.
 
 (* ------------------------------------------------------------------ *)
@@ -652,13 +633,13 @@ Proof.
 Qed.
 
 (* ------------------------------------------------------------------ *)
-(* charAt / charCodeAt on a String object without surrogates and without U+FFFD *)
+(* charAt / charCodeAt on a text without surrogates and without U+FFFD *)
 
 Lemma unit_at_in : forall u z, 0 <= z < zlen u -> In (unit_at u z) u.
 Proof. intros u z H. unfold unit_at. apply nth_In. unfold zlen in H. lia. Qed.
 
 Theorem charAt_refines_bmp : forall u a code, bmp_clean u -> ~ In 0xFFFD u -> zlen u < 2 ^ 62 ->
-  option_map (fun i => m_charAt (TStringObj (dec16 u)) i code) (int64_of a) =
+  option_map (fun i => m_charAt (dec16 u) i code) (int64_of a) =
   option_map (fun p => if code then charCodeAt u p else VStr (charAt u p)) (to_integer a).
 Proof.
   intros u a code B NF L. rewrite int64_of_sat. pose proof (zlen_nonneg _ u) as Hn.
@@ -898,3 +879,134 @@ Qed.
 
 Theorem utf16Length_go_string : forall s, scalars s -> utf16Length (enc8 s) = zlen (enc16 s).
 Proof. intros s H. unfold utf16Length. now rewrite dec8_enc8. Qed.
+
+(* ------------------------------------------------------------------ *)
+(* after the repairs 8a02cb3 / 27b5748 / 4b90749 / 02e659b *)
+
+(* ToUint32 / ToUint16 as otto computes them are the ES5 9.6 / 9.7 functions, for every double *)
+Theorem go_uint_is_to_uint : forall k a, go_uint k a = to_uint k a.
+Proof.
+  intros k a. unfold go_uint, to_uint, to_integer. destruct (to_number a) as [b|]; cbn [option_map]; [|reflexivity].
+  unfold to_integer_bits. destruct (decode b) as [|neg|neg m e]; try reflexivity.
+  destruct neg; reflexivity.
+Qed.
+
+(* charAt / charCodeAt are generic: any receiver but undefined, whose text has no surrogate and no U+FFFD *)
+Theorem charAt_call_refines : forall m r args u,
+  (m = MCharAt \/ m = MCharCodeAt) -> r <> RUndef -> this_string r = Some u ->
+  bmp_clean u -> ~ In 0xFFFD u -> zlen u < 2 ^ 62 ->
+  call_model m r args = call_spec m r args.
+Proof.
+  intros m r args u Hm NU TS B NF L.
+  assert (G : this_gostring m r = Some (dec16 u)).
+  { rewrite generic_receiver; [now rewrite TS | exact NU |].
+    intros E. destruct Hm; congruence. }
+  destruct Hm as [-> | ->]; unfold call_model, call_spec; rewrite G, TS.
+  - apply (charAt_refines_bmp u (arg_at args 0) false B NF L).
+  - apply (charAt_refines_bmp u (arg_at args 0) true B NF L).
+Qed.
+
+(* lastIndexOf on ASCII strings, every position except NaN and -Infinity (finding C09-lastindexof-position) *)
+Lemma lastIndexRune_ascii : forall v t, ascii v ->
+  lastIndexRune v t = match find_last t v with Some k => k | None => -1 end.
+Proof.
+  intros v t A. unfold lastIndexRune. destruct (find_last t v) as [k|] eqn:F; [|reflexivity].
+  apply find_last_some in F as (R & _ & _).
+  rewrite utf16Length_ascii by now apply ascii_firstn. now apply zlen_firstn.
+Qed.
+
+Lemma firstn_beyond : forall (s : str) n, zlen s <= n -> firstn (Z.to_nat n) s = s.
+Proof. intros s n H. apply firstn_all2. unfold zlen in H. lia. Qed.
+
+Lemma lastIndexOf_whole : forall s t, lastIndexOf s t PInf = match find_last t s with Some k => k | None => -1 end.
+Proof.
+  intros s t. unfold lastIndexOf, clamp. cbn [ext_max ext_min].
+  rewrite firstn_beyond by (pose proof (zlen_nonneg _ t); lia). reflexivity.
+Qed.
+
+Theorem lastIndexOf_refines_ascii_absent : forall s t nargs a1, ascii s -> ascii t ->
+  (nargs < 2)%nat \/ a1 = AUndef ->
+  m_lastIndexOf s t nargs a1 = Some (VInt (lastIndexOf s t PInf)).
+Proof.
+  intros s t nargs a1 As At H. unfold m_lastIndexOf. rewrite (enc8_ascii s As), (enc8_ascii t At).
+  rewrite lastIndexRune_ascii by exact As. rewrite lastIndexOf_whole.
+  destruct (Nat.ltb_spec nargs 2); [reflexivity|]. destruct H as [H| ->]; [lia|reflexivity].
+Qed.
+
+Lemma lastIndexOf_clamp : forall z len, 0 <= len < 2 ^ 62 ->
+  let n := if 2 ^ 63 <=? z then max64 else if z <=? - 2 ^ 63 then min64 else z in
+  (if len <? (if n <? 0 then 0 else n) then len else if n <? 0 then 0 else n) = Z.min (Z.max z 0) len.
+Proof.
+  intros z len H n. unfold n. big.
+  destruct (Z.leb_spec 9223372036854775808 z); [|destruct (Z.leb_spec z (Z.opp 9223372036854775808))].
+  - destruct (Z.ltb_spec (9223372036854775808 - 1) 0); [lia|]. split_ifs.
+  - destruct (Z.ltb_spec (Z.opp 9223372036854775808) 0); [|lia]. split_ifs.
+  - destruct (Z.ltb_spec z 0); split_ifs.
+Qed.
+
+Lemma number_bits_fin : forall b, is_nan_bits b = false -> to_integer_bits b <> NInf ->
+  (to_integer_bits b = PInf /\ fst (number_bits b) = true) \/
+  (exists z, to_integer_bits b = Fin z /\
+             number_bits b = (false, if 2 ^ 63 <=? z then max64 else if z <=? - 2 ^ 63 then min64 else z)).
+Proof.
+  intros b NN NI. unfold is_nan_bits, to_integer_bits, number_bits in *.
+  destruct (decode b) as [|neg|neg m e]; [discriminate| |].
+  - destruct neg; [congruence|]. left. split; reflexivity.
+  - right. eexists. split; [reflexivity|].
+    destruct (2 ^ 63 <=? _); [reflexivity|]. destruct (_ <=? - 2 ^ 63); reflexivity.
+Qed.
+
+Theorem lastIndexOf_refines_ascii : forall s t nargs a1 b, ascii s -> ascii t -> zlen s < 2 ^ 62 ->
+  (2 <= nargs)%nat -> a1 <> AUndef -> to_number a1 = Some b ->
+  is_nan_bits b = false -> to_integer_bits b <> NInf ->
+  m_lastIndexOf s t nargs a1 = Some (VInt (lastIndexOf s t (to_integer_bits b))).
+Proof.
+  intros s t nargs a1 b As At L N2 NU TN NN NI.
+  unfold m_lastIndexOf. cbv zeta. rewrite (enc8_ascii s As), (enc8_ascii t At).
+  pose proof (zlen_nonneg _ s) as Hs. pose proof (zlen_nonneg _ t) as Ht.
+  destruct (Nat.ltb_spec nargs 2); [lia|].
+  assert (W : Some (VInt (lastIndexRune s t)) = Some (VInt (lastIndexOf s t PInf))).
+  { now rewrite lastIndexRune_ascii, lastIndexOf_whole. }
+  assert (Body : (if zlen s =? 0 then Some (VInt (lastIndexRune s t))
+                  else match number a1 with
+                       | Some (isinf, n) =>
+                           if isinf then Some (VInt (lastIndexRune s t))
+                           else Some (VInt (lastIndexRune
+                                  (firstn (Z.to_nat (if zlen s <? (if zlen s <? (if n <? 0 then 0 else n) then zlen s else if n <? 0 then 0 else n) + zlen t
+                                                     then zlen s
+                                                     else (if zlen s <? (if n <? 0 then 0 else n) then zlen s else if n <? 0 then 0 else n) + zlen t)) s) t))
+                       | None => None
+                       end) = Some (VInt (lastIndexOf s t (to_integer_bits b)))).
+  { destruct (Z.eqb_spec (zlen s) 0) as [Z0|Z0].
+    - rewrite W. do 2 f_equal. unfold lastIndexOf.
+      pose proof (clamp_range (to_integer_bits b) (zlen s) Hs).
+      pose proof (clamp_range PInf (zlen s) Hs).
+      rewrite !firstn_beyond by lia. reflexivity.
+    - unfold number. rewrite TN. cbn [option_map].
+      destruct (number_bits_fin b NN NI) as [[P I]|[z [P I]]].
+      + destruct (number_bits b) as [isinf n]. cbn [fst] in I. subst isinf. rewrite P. exact W.
+      + rewrite I, P.
+        pose proof (lastIndexOf_clamp z (zlen s) ltac:(lia)) as C. cbv zeta in C. rewrite C.
+        rewrite lastIndexRune_ascii by now apply ascii_firstn.
+        unfold lastIndexOf, clamp. cbn [ext_max ext_min].
+        set (st := Z.min (Z.max z 0) (zlen s)).
+        destruct (Z.ltb_spec (zlen s) (st + zlen t)); [|reflexivity].
+        rewrite (firstn_beyond s (st + zlen t)) by lia. rewrite (firstn_beyond s (zlen s)) by lia. reflexivity. }
+  destruct a1; try congruence; exact Body.
+Qed.
+
+(* only the decimal text of an index is an index name of a String object (15.5.5.2) *)
+Lemma zlist_eqb_eq : forall a b, list_eqb Z.eqb a b = true -> a = b.
+Proof.
+  induction a as [|x a IH]; destruct b as [|y b]; cbn [list_eqb]; intro H; try reflexivity; try discriminate.
+  apply andb_prop in H as [E H]. apply Z.eqb_eq in E. subst. f_equal. now apply IH.
+Qed.
+
+Theorem index_name_canonical : forall p, 0 <= string_to_array_index p ->
+  int_text (string_to_array_index p) = p /\ string_to_array_index p < 4294967295.
+Proof.
+  intros p H. unfold string_to_array_index in *.
+  destruct (parse_int_go p) as [i|]; [|lia].
+  destruct (Z.ltb_spec i 0); [lia|]. destruct (Z.leb_spec 4294967295 i); [lia|].
+  destruct (list_eqb Z.eqb (int_text i) p) eqn:E; [|lia]. split; [now apply zlist_eqb_eq|lia].
+Qed.
